@@ -431,6 +431,55 @@ Proof.
   intros K. apply R. rewrite Dp, E, K. reflexivity.
 Qed.
 
+(* ---- what ABORT does to the counting receiver (receiver_rejections_contained alone does not say: a receiver that ignored ABORT
+   would satisfy it too).  An ABORT inside a sequence -- the sender's handleSendViolation writes one for every open sequence of the
+   failed object -- makes the receiver discard, and it goes on discarding for EVERY continuation that stays inside that top-level
+   object, whatever the tokens and wherever its own unslicers raise: nothing of an aborted call is handed on after the ABORT. *)
+Lemma discard_persists c tv : cdiscard c = true -> (1 <= dep (cdepth c) [fst tv])%nat -> cdiscard (cstep c tv) = true.
+Proof.
+  intros D L. destruct tv as [t v]. unfold cstep, reject. destruct t; cbn [cdiscard fst dep] in *.
+  - rewrite D. reflexivity.
+  - destruct (cdepth c) as [|[|k]]; cbn [pred] in L; [lia|lia|]. rewrite D. reflexivity.
+  - destruct (cdepth c); [lia|reflexivity].
+  - rewrite D. reflexivity.
+Qed.
+
+Lemma discard_run ts : forall c flags, cdiscard c = true -> List.length flags = List.length ts -> inside (cdepth c) ts = true ->
+  cdiscard (crun c (combine ts flags)) = true /\ cdepth (crun c (combine ts flags)) = dep (cdepth c) ts.
+Proof.
+  induction ts as [|t ts IH]; intros c flags D L I.
+  - destruct flags; [|discriminate]. cbn. auto.
+  - destruct flags as [|v flags]; [discriminate|]. cbn [List.length] in L. injection L as L.
+    cbn [combine crun fold_left]. fold (crun (cstep c (t, v)) (combine ts flags)).
+    cbn [inside] in I. destruct (dep (cdepth c) [t]) as [|k] eqn:E; [discriminate|].
+    assert (Dp : cdepth (cstep c (t, v)) = S k) by (rewrite <- E; destruct t; reflexivity).
+    assert (D' : cdiscard (cstep c (t, v)) = true) by (apply discard_persists; [exact D|cbn [fst]; rewrite E; lia]).
+    rewrite <- Dp in I. destruct (IH _ _ D' L I) as [A B]. split; [exact A|]. rewrite B, Dp, <- E. destruct t; reflexivity.
+Qed.
+
+Theorem abort_discards_whole_object c n v ts flags : (1 <= cdepth c)%nat -> List.length flags = List.length ts ->
+  inside (cdepth c) ts = true ->
+  let r := crun (cstep c (TAbort n, v)) (combine ts flags) in
+  cdiscard r = true /\ cdepth r = dep (cdepth c) ts.
+Proof.
+  intros P L I. cbn zeta.
+  assert (D : cdiscard (cstep c (TAbort n, v)) = true) by (cbn; destruct (cdepth c); [lia|reflexivity]).
+  exact (discard_run ts (cstep c (TAbort n, v)) flags D L I).
+Qed.
+
+(* non-vacuity, on the sender's own stream: the 2nd argument of a call is unsendable at depth 2 (ABORT/CLOSE of the inner list, ABORT
+   of the call, then its CLOSE); the receiver rejects nothing itself.  From the first ABORT to just before the last CLOSE it
+   discards; after the last CLOSE it is back at top level and the sibling call is received *)
+Example ex_abort_discards :
+  let s := run (init 0) (events_of_top (Sub [Tok 1; Sub [Tok 2; Unsendable]])) in
+  let nof := map (fun _ => false) in
+  out s = [TOpen 0; TData 1; TOpen 1; TData 2; TAbort 1; TClose 1; TAbort 0; TClose 0] /\
+  let c := crun (cinit 0) (combine (firstn 4 (out s)) (nof (firstn 4 (out s)))) in
+  cdepth c = 2%nat /\ cdiscard c = false /\ inside (cdepth c) [TClose 1; TAbort 0] = true /\
+  cdiscard (crun (cstep c (TAbort 1, false)) (combine [TClose 1; TAbort 0] [false; false])) = true /\
+  cdiscard (crun (cinit 0) (combine (out s) (nof (out s)))) = false.
+Proof. vm_compute. auto 10. Qed.
+
 (* ---- f.type: module and name are the two sides of the LAST dot of the transmitted name, and qual() joins them back *)
 Lemma split_last_spec sep t m n : split_last sep t = Some (m, n) -> t = m ++ [sep] ++ n /\ ~ In sep n.
 Proof.
